@@ -395,7 +395,9 @@ class Agent(dbus.service.Object):
         :param ctr: The bundle container to send.
         '''
         ctr.reload()
-        self._apply_primary(ctr)
+        if 'receive' not in ctr.actions:
+            # defaults only apply to bundles originated here
+            self._apply_primary(ctr)
         ctr.fix_block_num()
         ctr.bundle.fill_fields()
 
